@@ -28,10 +28,25 @@ import (
 type policyErr struct {
 	repo string
 	kind ocifilter.AccessKind
+	is   error // what the rejection also is (a policy may say "unknown", "denied", ... in its own words)
 }
 
 func (e *policyErr) Error() string {
 	return fmt.Sprintf("policy rejects %q for kind %d", e.repo, e.kind)
+}
+
+func (e *policyErr) Unwrap() error { return e.is }
+
+// newPolicyErr is the policy's rejection of (repo, kind): a value of its own that, depending on the pair,
+// also is one of the standard errors. The wrapper hands it on whatever it is.
+var polSalt uint32 // varies from world to world, so that every pair gets every kind of rejection
+
+func newPolicyErr(repo string, kind ocifilter.AccessKind) *policyErr {
+	h := uint32(kind)*2654435761 + 17 + polSalt*40503
+	for _, ch := range []byte(repo) {
+		h = h*31 + uint32(ch)
+	}
+	return &policyErr{repo, kind, []error{nil, ociregistry.ErrNameUnknown, ociregistry.ErrDenied, ociregistry.ErrUnauthorized, nil, ociregistry.ErrUnsupported, fmt.Errorf("not listed: %w", ociregistry.ErrNameUnknown)}[(h>>5)%7]}
 }
 
 // decision function: verdict for (repo, kind)
@@ -84,6 +99,7 @@ type world struct {
 var worldCount int
 
 func newWorld(run *evid.Run, sel bool, pol policy) *world {
+	polSalt++
 	w := &world{run: run, sel: sel, pol: pol, hmap: map[int]int{}}
 	w.recd = rec.New(ocimem.New())
 	// Every third world sits on a stack of wrappers that allow everything (0..3 of them, both kinds),
@@ -119,7 +135,7 @@ func newWorld(run *evid.Run, sel bool, pol policy) *world {
 			if w.pol(repo, kind) {
 				return nil
 			}
-			return &policyErr{repo, kind}
+			return newPolicyErr(repo, kind)
 		})
 	}
 	w.wrapped = model.NewEnv(reg)
@@ -307,6 +323,7 @@ func hashPolicy(seed uint64, kindSensitive bool) policy {
 // such pairs on). Whatever the wrapper does with the error, a name the policy rejects must not reach the
 // consumer - not even in the item that accompanies the error.
 func listingWithItemOnError(run *evid.Run, idx int) {
+	polSalt = uint32(idx)*7 + 3
 	names := []string{"public/a", "public/b", "secret/c", "secret/d", "zz"}
 	rejected := map[string]bool{}
 	for i, n := range names {
@@ -340,7 +357,7 @@ func listingWithItemOnError(run *evid.Run, idx int) {
 		} else {
 			reg = ocifilter.AccessChecker(backend, func(repo string, kind ocifilter.AccessKind) error {
 				if rejected[repo] {
-					return &policyErr{repo, kind}
+					return newPolicyErr(repo, kind)
 				}
 				return nil
 			})
@@ -375,6 +392,7 @@ func listingWithItemOnError(run *evid.Run, idx int) {
 // error is accepted; a name the wrapped registry never delivered, a rejected name, or a listing that
 // ends early without any error is not.
 func listingUnderDoneContext(run *evid.Run, idx int) {
+	polSalt = uint32(idx)*7 + 3
 	names := []string{"a/allowed", "b/secret", "c/allowed", "d/allowed", "e/secret", "f/allowed"}
 	rejected := map[string]bool{"b/secret": true, "e/secret": true}
 	if idx%7 == 6 {
@@ -410,7 +428,7 @@ func listingUnderDoneContext(run *evid.Run, idx int) {
 		} else {
 			reg = ocifilter.AccessChecker(backend, func(repo string, kind ocifilter.AccessKind) error {
 				if rejected[repo] {
-					return &policyErr{repo, kind}
+					return newPolicyErr(repo, kind)
 				}
 				return nil
 			})
@@ -495,6 +513,7 @@ func listingUnderDoneContext(run *evid.Run, idx int) {
 // consume a Seq). The rejection is final: the wrapped registry is not invoked and nothing of the
 // repository's content is delivered, however long the consumer keeps asking.
 func patientConsumer(run *evid.Run, idx int) {
+	polSalt = uint32(idx)*7 + 3
 	var mu sync.Mutex
 	var invoked []string
 	backend := &ociregistry.Funcs{
@@ -530,7 +549,7 @@ func patientConsumer(run *evid.Run, idx int) {
 		} else {
 			reg = ocifilter.AccessChecker(backend, func(repo string, kind ocifilter.AccessKind) error {
 				if !allow(repo) {
-					return &policyErr{repo, kind}
+					return newPolicyErr(repo, kind)
 				}
 				return nil
 			})
